@@ -88,6 +88,16 @@ example : (init 4 3 .loopMatch true).expected.Nodup := by decide
 /-- `roots[0]` in the exit / registration runners is never evaluated on an empty slice -/
 theorem C05_no_panic (st : St) (m : Msg) : ∀ st', step st m ≠ (st', .panicked) := step_no_panic st m
 
+/-- later duties on the same runner object: whatever the previous duty received, the collection state of the next duty is
+    exactly the initial one (`baseSetupForNewDuty` keeps nothing), so every theorem stated for `init` holds for every
+    duty the runner ever executes -/
+theorem C05_next_duty_is_fresh (n k : Nat) (style : Style) (d0 d : Bool) (ms : List Msg) :
+    let st := nextDuty (run (init n k style d0) ms).1 d
+    st.q = (init n k style d).q ∧ st.cm = (init n k style d).cm ∧ st.expected = (init n k style d).expected ∧
+    st.style = (init n k style d).style ∧ st.decided = d ∧ st.finished = false ∧ ∀ r s, st.c.get r s = none := by
+  obtain ⟨a, b, c, e⟩ := run_params (init n k style d0) ms
+  exact ⟨a, b, c, e, rfl, rfl, fun _ _ => rfl⟩
+
 /-! ## liveness, single-root runners -/
 
 /-- STRONG form (no bound on the number of faulty senders is needed): for EVERY message sequence, if `Share.Quorum`
